@@ -181,6 +181,8 @@ def run_playback_test(runner, ws, prop, h, test_src, test_name, profiles=("dev",
             return False
         in_code_under_test = [m_ for loc, m_ in located if under_test(loc)]
         def same_reason(msg):
+            if "kani::assume" in msg:
+                return False  # a perturbed variant left the harness's input space: not a witness
             if not expect:
                 return True
             if placeholder and msg in in_code_under_test:
@@ -262,7 +264,8 @@ def replay_file(runner, path):
             return 2
         h = hs[0]
         if rec.get("kind", "playback") == "playback":
-            outcomes = run_playback_test(runner, ws, prop, h, rec["playback_test"], rec["playback_test_name"])
+            outcomes = run_playback_test(runner, ws, prop, h, rec["playback_test"], rec["playback_test_name"],
+                                         expect=[c.get("description", "") for c in (rec.get("failed_checks") or [])])
             print(json.dumps(outcomes, indent=1))
             return 1 if "failed" in (outcomes.get("dev"), outcomes.get("release")) else 0
         import replay_custom
